@@ -156,6 +156,7 @@ package runner
 //@   requires runnerOK(r) && t != nil && executionContext != nil && compiledClosed()
 //@   callsite CompileCommand
 //@     requires #C13.condition-carries-task-timeout arg3 == t.Timeout && arg2 == t.Dir
+//@     requires #C11.hook-output-is-not-captured arg5 == r.Stdout && arg6 == r.Stderr // hooks and the condition write to the runner's own streams, never into the task's captured output
 //@   modifies runN, runJob, runErr, bufLen, interp.Runner.Dir, interp.Runner.Env, compiled, cdom, cval, executor.Job.Dir, executor.DefaultExecutor.*
 //@   ensures #log-prefix runN >= old(runN) && runN <= old(runN) + 1 && (forall i int :: i < old(runN) ==> runJob[i] == old(runJob[i]) && runErr[i] == old(runErr[i]))
 //@   ensures #C06.no-condition t.Condition == "" ==> result && result#1 == nil && runN == old(runN)
@@ -165,6 +166,7 @@ package runner
 //@   requires runnerOK(r) && t != nil && execContext != nil && vars != nil && env != nil && compiledClosed()
 //@   callsite CompileCommand
 //@     requires #C13.hook-carries-task-timeout arg3 == t.Timeout && arg2 == t.Dir && arg7 == env && arg8 == vars
+//@     requires #C11.hook-output-is-not-captured arg5 == r.Stdout && arg6 == r.Stderr // hooks and the condition write to the runner's own streams, never into the task's captured output
 //@   modifies runN, runJob, runErr, bufLen, interp.Runner.Dir, interp.Runner.Env, compiled, cdom, cval, executor.Job.Dir, executor.DefaultExecutor.*
 //@   ensures #log-prefix runN >= old(runN) && (forall i int :: i < old(runN) ==> runJob[i] == old(runJob[i]) && runErr[i] == old(runErr[i]))
 //@   ensures #C06.before-all-ok result == nil ==> runN == old(runN) + len(t.Before) && (forall i int :: old(runN) <= i && i < runN ==> runErr[i] == nil)
@@ -180,6 +182,7 @@ package runner
 //@   requires runnerOK(r) && t != nil && execContext != nil && vars != nil && env != nil && compiledClosed()
 //@   callsite CompileCommand
 //@     requires #C13.hook-carries-task-timeout arg3 == t.Timeout && arg2 == t.Dir && arg7 == env && arg8 == vars
+//@     requires #C11.hook-output-is-not-captured arg5 == r.Stdout && arg6 == r.Stderr // hooks and the condition write to the runner's own streams, never into the task's captured output
 //@   modifies runN, runJob, runErr, bufLen, interp.Runner.Dir, interp.Runner.Env, compiled, cdom, cval, executor.Job.Dir, executor.DefaultExecutor.*
 //@   ensures #log-prefix runN >= old(runN) && runN <= old(runN) + len(t.After) && (forall i int :: i < old(runN) ==> runJob[i] == old(runJob[i]) && runErr[i] == old(runErr[i]))
 //@   ensures compiledClosed()
@@ -208,6 +211,7 @@ package runner
 //@ ghost gOutErr error
 
 //@ func (*TaskRunner).Run
+//@   ghostlocal gCaptured io.Writer
 //@   waive safe.close "C12 (cancellation safety) is not claimed: with two runs in flight a Cancel makes both close doneCh"
 //@   requires runnerOK(r) && taskOK(t) && compiledClosed()
 //@   modifies *
@@ -232,7 +236,10 @@ package runner
 //@     requires #C09.same-env arg3 == env && arg4 == vars && arg2 == execContext
 //@     requires #C06.condition-first calls(checkTaskCondition) == 1 && gCondMet && gCondErr == nil && calls(before) == 0
 //@     ghost gBeforeErr = result
+//@   callsite Stdout
+//@     ghost gCaptured = result
 //@   callsite CompileTask
+//@     requires #C11.commands-write-into-the-captured-output calls(Stdout) == 1 && arg3 == gCaptured
 //@     requires #C09.same-env arg5 == env && arg6 == vars && arg1 == execContext
 //@     requires #C06.before-first calls(before) == 1 && gBeforeErr == nil
 //@     ghost gCompileErr = result#1
